@@ -104,7 +104,7 @@ def run_sx(H, tier, regions=(), max_paths=None, max_s=None, witnesses=None):
         core.ENG = None
         try:
             with H.native_setup():
-                return core.plain(H.body(cinp))
+                return core.plain(guarded_body(H, cinp))
         finally:
             core.ENG = saved
 
@@ -129,8 +129,8 @@ def run_sx(H, tier, regions=(), max_paths=None, max_s=None, witnesses=None):
 
         def fn():
             with patched(*H.shims()):
-                obs = H.body(inp)
-            ok = H.prop(inp, obs)
+                obs = guarded_body(H, inp)
+            ok = False if _isinstance_dict_exc(obs) else H.prop(inp, obs)
             return obs, ok
 
         def on_path(r):
@@ -147,6 +147,10 @@ def run_sx(H, tier, regions=(), max_paths=None, max_s=None, witnesses=None):
                 except Exception as e:  # native run crashed: compare as an observation
                     nat = {"native-exception": type(e).__name__ + ": " + str(e)[:200]}
                 res["replays"] += 1
+                if _isinstance_dict_exc(obs) and nat != pred:
+                    # raised only under symbolic execution (an engine limitation inside the code under test): inconclusive
+                    state["soft"] = f"exception only under symbolic execution: {obs}"
+                    return None
                 return {"cinp": jsonable(cinp), "predicted": pred, "native": nat, "expected": exp}
             # path-faithfulness witness
             if res["replays"] < w and eng.paths in sample_at:
@@ -174,6 +178,9 @@ def run_sx(H, tier, regions=(), max_paths=None, max_s=None, witnesses=None):
             else:
                 res["status"] = "violated"
                 res["cex"] = stop
+        elif state.get("soft"):
+            res["status"] = "inconclusive"
+            res["reason"] = state["soft"]
         elif eng.paths == 0 or state["first"] is None and w > 0:
             res["status"] = "harness-error"
             res["reason"] = "no feasible path reached the assertion (vacuous)"
@@ -314,7 +321,7 @@ def main(argv=None):
         still = False
         try:
             with H.native_setup():
-                nat = norm(_plain(H.body(k["cinp"])))
+                nat = norm(_plain(guarded_body(H, k["cinp"])))
             still = nat == norm(k["bad_obs"])
         except Exception as e:
             nat = "exception " + repr(e)
@@ -517,13 +524,35 @@ def _z3v():
         return "?"
 
 
+def _isinstance_dict_exc(obs):
+    return isinstance(obs, dict) and "undeclared_exception" in obs
+
+
+def guarded_body(H, inp):
+    """H.body(inp); an ordinary exception that escapes from code of the package under test (innermost frame outside
+    /verif) is an observation of its own - harnesses catch what the code may legitimately raise, so anything else is an
+    undeclared exception (CrossHair's `raises:` convention).  Exceptions raised by the harness or the engine propagate."""
+    from .core import Unsupported
+
+    try:
+        return H.body(inp)
+    except Unsupported:
+        raise
+    except Exception as e:
+        tb = traceback.extract_tb(e.__traceback__)
+        inner = tb[-1] if tb else None
+        if inner is None or "/verif/" in inner.filename or not ("/pkgcore/" in inner.filename or "/snakeoil/" in inner.filename):
+            raise
+        return {"undeclared_exception": type(e).__name__, "raised_in": f"{os.path.basename(inner.filename)}:{inner.name}"}
+
+
 def replay(mod, pid, path):
     with open(path) as f:
         rec = json.load(f)
     H = mod.harness(rec["ob"])
     try:
         with H.native_setup():
-            nat = norm(_plain(H.body(rec["cinp"])))
+            nat = norm(_plain(guarded_body(H, rec["cinp"])))
     except Exception as e:
         nat = {"native-exception": type(e).__name__ + ": " + str(e)[:200]}
     print("input   :", json.dumps(rec["cinp"]))
